@@ -333,7 +333,18 @@ package netconf
 // ---- C19 / C08: the NETCONF constructor ------------------------------------------------------------------------------------
 // optBaseN: ghost - the option log as the generic constructor left it
 //@ ghost optBaseN []int
+// what the generic constructor configured on the channel (ghost snapshots taken when it returns)
+//@ ghost chDepthN int local
+//@ ghost chDelayN int local
+//@ ghost chTimeoutN int local
+//@ ghost chReturnN string local
 //@ func NewDriver [C19 C08]
+//@   after call NewDriver#1 set chDepthN = result.0.Channel.PromptSearchDepth
+//@   after call NewDriver#1 set chDelayN = result.0.Channel.ReadDelay
+//@   after call NewDriver#1 set chTimeoutN = result.0.Channel.TimeoutOps
+//@   after call NewDriver#1 set chReturnN = result.0.Channel.ReturnChar
+//@   at return assert [C09 C19] #the-channel-the-options-configured-is-taken-over-with-only-its-prompt-pattern-replaced result.1 == nil ==> gd.Channel.PromptSearchDepth == chDepthN && gd.Channel.ReadDelay == chDelayN && gd.Channel.TimeoutOps == chTimeoutN && gd.Channel.ReturnChar == chReturnN
+//@   loop 1 invariant [C09 C19] #before-its-own-options-the-netconf-driver-has-the-channel-and-transport-the-options-built rangeindex == -1 ==> d.Channel == gd.Channel && d.Transport == gd.Transport
 //@   at call! NewDriver#1 assert #the-generic-driver-gets-the-host-and-all-options-plus-the-netconf-marker arg0 == old(host) && len(arg1) == len(old(opts)) + 1 && arg1[0:len(old(opts))] === old(opts)
 //@   after call NewDriver#1 set optBaseN = optlog
 //@   loop 1 invariant [C19] #before-its-own-options-the-netconf-driver-logs-through-what-the-logging-options-built rangeindex == -1 ==> d.Logger == gd.Logger
